@@ -422,8 +422,8 @@ def gen_db(rng):
 
 class C09(Check):
     pid = "C09"
-    quick_cases = 900
-    thorough_cases = 9000
+    quick_cases = 700
+    thorough_cases = 6000
     rule = ("hist: one relation of 1-5 typed columns, start in {absent, plain, gz, both with plain newer / gz "
             "newer / equal mtime}, 1-12 steps of tsdb.write (append x gzip, 0-3 records of ints incl. huge, "
             "strings over the C08 alphabet, date-times, None; 5% a record of wrong width; 20% fields taken from the "
@@ -662,8 +662,8 @@ class C09(Check):
             inc("db.gzip:%s" % case["gzip"])
             inc("db.res:" + res["res"])
             inc("db.relations_src:%d" % len(case["src_schema"]))
-        if any(len({tuple(f["name"]) for f in t["fields"]}) < len(t["fields"]) for t in case["src_schema"]):
-            inc("db.src_duplicate_column")
+            if any(len({tuple(f["name"]) for f in t["fields"]}) < len(t["fields"]) for t in case["src_schema"]):
+                inc("db.src_duplicate_column")
             if "err" in res["schema"]:
                 inc("db.schema_unreadable:" + res["schema"]["err"])
             for r in res["rels"]:
